@@ -51,7 +51,7 @@ PROPS.update({
                 invariants="RasterSide/RasterCentres/RasterUniform/RasterPng over RegsAfter(program) (TV)"),
     "C16": dict(scen=[("core", "text", True), ("diff", "diffrender", False)], mc=mcq("MC_Render"),
                 invariants="TextShape/TextBorder/TextModules (TV); MC_Render: decode o TextOf = id on all 0/1 matrices of a small side"),
-    "C17": dict(scen=[("hooked|wasm", "wasm", True)], mc={"quick": [], "thorough": []},
+    "C17": dict(scen=[("hooked|wasm", "wasm", True), ("hooked-diff", "diffwasm", False)], mc={"quick": [], "thorough": []},
                 invariants="HavocExact, TypeOK (MC_Wasm, GEN); WasmNeverTraps, WasmEqualsNative = Render predicates on NativeOf(W_After(program)) + string equality with the native output (TV)"),
     "C18": dict(scen=[("core", "frames", True), ("core", "rasterframes", True), ("core", "sessions", True), ("diff", "diffrender", False)], mc=mcq("MC_Render"),
                 invariants="FrameDefault, FrameImageCentred, monotone frame side (FrameSweep), FrameOverrides (TV)"),
@@ -64,8 +64,8 @@ BARE_SCENS = {"cells", "lengths", "structured", "nearblocks", "formats", "thresh
               "text", "aftermath", "walk", "histories"}
 # scenarios of the SVG renderer alone: also driven against the crate compiled with `svg` but without `image`
 SVGONLY_SCENS = {"svg", "frames", "callbacks", "svgdiscovered", "sessions"}
-DIFF_SCENS = {"diffbuild", "diffrender"}     # differential input selection against ref/ (flavour `diff`)
-NO_TWIN = {"birthday", "diffbuild", "diffrender"}        # a sweep that only selects inputs (25 CPU-minutes in the thorough tier): driven against one build configuration
+DIFF_SCENS = {"diffbuild", "diffrender", "diffwasm"}     # differential input selection against ref/ (flavour `diff`)
+NO_TWIN = {"birthday", "diffbuild", "diffrender", "diffwasm"}        # a sweep that only selects inputs (25 CPU-minutes in the thorough tier): driven against one build configuration
 # scenario -> (fuzz target, seconds per tier)
 DISCOVER = {"discovered": ("qrbuild", {"quick": 25, "thorough": 300}), "candidates": ("qrbuild", {"quick": 25, "thorough": 300}), "svgdiscovered": ("svgimage", {"quick": 15, "thorough": 120})}
 GEN = {"fileio": ("FileIO.tla", "MC_FileIO.cfg", False), "wasm": ("MC_Wasm.tla", "MC_Wasm_{tier}.cfg", True),
